@@ -28,6 +28,7 @@ pub fn main(prop: &'static str, args: &Args) {
         vrt::machinery(&format!("corpus build failed (C20 reports receivers that do not compile):\n{}", e.chars().take(3000).collect::<String>()));
     }
     let t = run_shards(&pkgs, prop, args.tier, &[]);
+    let main_programs = t.counters.get("programs").copied().unwrap_or(0) as usize;
     rep.absorb(t);
     if prop == "C03" {
         // algebra half: spans through with_span/at/multiple/flatten/diagnostics
@@ -37,6 +38,32 @@ pub fn main(prop: &'static str, args: &Args) {
         rep.absorb(t);
     }
     if prop == "C07" {
+        // the other corpora, for panics only: attribute receivers (incl. forwarding-only ones and
+        // every forward_attrs form), magic-field / body receivers (unions, empty enums, failing
+        // elements) and supports(..) receivers
+        let attr = attr_corpus(args.tier);
+        let mut extra = generate(&attr);
+        let n_attr = extra.len();
+        extra.extend(crate::c16::generate_body(args.tier));
+        extra.extend(crate::c18::generate_shape(args.tier));
+        if let Err(e) = build(&extra) {
+            vrt::machinery(&format!("corpus build failed:\n{}", e.chars().take(3000).collect::<String>()));
+        }
+        let mut t2 = run_shards(&extra[..n_attr], "C07", args.tier, &[]);
+        let t3 = run_shards(&extra[n_attr..], "C07", args.tier, &[]);
+        t2 = t2.merge(t3);
+        t2.violations.retain(|v| v.key.contains("panicked"));
+        t2.violation_count = t2.violations.len() as u64;
+        for v in &mut t2.violations {
+            for p in ["C08 ", "C16 ", "C18 "] {
+                if v.key.starts_with(p) {
+                    v.key = v.key.replacen(p, "C07 ", 1);
+                }
+            }
+        }
+        t2.states = 0;
+        t2.transitions = 0;
+        rep.absorb(t2);
         let t = crate::c07::sweep();
         rep.absorb(t);
         rep.set("builtin_targets", json!(crate::c07::targets().len()));
@@ -61,6 +88,6 @@ pub fn main(prop: &'static str, args: &Args) {
         rep.require_counter(k);
     }
     rep.require(rep.tally.counters.get("generator_unparseable").is_none(), "generator produced unparseable sources");
-    rep.require(rep.tally.counters.get("programs").copied().unwrap_or(0) as usize == spec.programs.len(), "not every receiver was exercised");
+    rep.require(main_programs == spec.programs.len(), "not every receiver was exercised");
     rep.finish()
 }
